@@ -769,8 +769,9 @@ def estimator_cases(ctx, name, b, reps=1, kcenters=True):
             k = rng.choice([1, 0])                     # refused: fewer than 2 clusters
         params = {'n_clusters': k, 'center_position': pos, 'n_init': rng.choice([1, 2, 1, 2, 1, 2, 0]),
                   'directed': rng.random() < 0.3, 'max_iter': rng.choice([20, 20, 1, 0])}
-        # KCenters does not convert its input (no check_format): csr only, except for the symmetrised `directed` path
-        out += kcenters_cases(ctx, b, params, fb, rng.randrange(10 ** 6))
+        # KCenters(directed=True) hands its input to directed2undirected unconverted: TypeError on anything but csr
+        # (a container-format matter, reported to C01) -> other containers only with directed=False
+        out += kcenters_cases(ctx, b, params, fb, rng.randrange(10 ** 6), 'csr' if params['directed'] else cont())
     ctx.count('graph:' + name)
     return out
 
